@@ -96,9 +96,7 @@ Theorem C14_label_schedule_independent_real :
   In (R, l1) (c_labels (crun ckey_dec cval_eqb cclass (cleaf H) H P1 hist (init_state g gleaves gtotals) ops1)) ->
   In (R, l2) (c_labels (crun ckey_dec cval_eqb cclass (cleaf H) H P2 hist (init_state g gleaves gtotals) ops2)) ->
   l1 = l2.
-Proof.
-  exact (fun H HB => label_schedule_independent ckey cval ckey_dec cval_eqb cval_eqb_eq cclass (cleaf H) H 36 (cleaf_ok H HB)).
-Qed.
+Proof. exact label_schedule_independent_real. Qed.
 Print Assumptions C14_label_schedule_independent_real.
 
 (* accountsUpdateBalances walks compactKvDeltas in Go map order: any two orders of any two
@@ -168,7 +166,7 @@ Print Assumptions C14_collision_order_dependent.
 
 (* the colliding pair exists for the real KV builder under every hash function (C15) *)
 Theorem C14_real_collision : forall H, wk1 <> wk2 /\ cleaf H wk1 wv1 = cleaf H wk2 wv2.
-Proof. exact (fun H => conj w_keys_differ (w_collision H)). Qed.
+Proof. exact real_collision. Qed.
 Print Assumptions C14_real_collision.
 
 (* ---------- non-vacuity: the hypotheses are satisfiable and labels are produced ---------- *)
